@@ -84,12 +84,14 @@ CLAIMED = {
     "C11": dict(text="ClassificationAccuracy is verified: the counting loop (TP + FP = number of pairs, TP = number of label-correct pairs), the four formulas "
                      "with their range in [0,1] and the all-correct case, and the constructor (per-frame lists are pooled once each, the caller's lists are untouched). "
                      "_get_object_results_with_id is verified for all inputs with unique non-null uuids per side and camera: an estimate and a ground truth are paired "
-                     "iff they share uuid and camera, each object once, unpaired estimates are reported once without ground truth (not at all when a traffic-light "
-                     "leftover remains), inputs untouched. get_object_results sends ROI-less 2-D objects to the identity-based pairing (traffic lights to the "
-                     "label-then-uuid pairing). The traffic-light pairing itself is checked on the real code exhaustively up to a stated bound (bounded stand-in).",
-                note="Bounded part: _get_object_results_for_tlr (a greedy whose choices depend on the history of two working copies) and 'largest number of label-correct "
-                     "pairs': all label assignments of up to 3 estimates x 3 ground truths over 2 camera frames, unique uuids, both uuid-first settings; shared ids across cameras "
-                     "sampled. The working copies of _get_object_results_with_id are characterised positionally (rank-inverse ghost, pop carry facts, two proof hints).", ref="5/C11"),
+                     "iff they share uuid and camera, each object once, leftovers (if reported) once each without ground truth, inputs untouched. "
+                     "_get_object_results_for_tlr is verified for both uuid-first settings: every pair consists of input objects of one camera with equal label (and uuid "
+                     "when requested) or equal uuid, each object is in at most one pair, and among the objects left unpaired no pair by label or by uuid remains. "
+                     "get_object_results sends ROI-less 2-D objects to the identity-based pairing (traffic lights to the label-then-uuid pairing).",
+                note="'The number of label-correct pairs is the largest possible' follows from 'no label pair is left' (objects of equal label and camera form complete bipartite "
+                     "classes, so a maximal matching is maximum) - that step is argued, not machine-checked, and checked exhaustively on the real code up to 3 x 3 objects x 2 "
+                     "cameras (bounded). The working copies of _get_object_results_with_id are characterised positionally (rank-inverse ghost, pop carry facts, two proof hints); "
+                     "those of the traffic-light pairing by universal invariants (input positions as uninterpreted functions).", ref="5/C11"),
     "C15": dict(text="check_thresholds / check_nested_thresholds / set_thresholds are verified over dynamically typed symbolic values (type tag, length, items, two "
                      "levels): a normal return guarantees one number per label (flat) or lists of exactly one number per label (nested), errors only for malformed "
                      "input; _check_tasks (task supported by the manager), PerceptionEvaluationConfig._extract_params (exactly one range kind for 3-D, mandatory "
